@@ -147,9 +147,9 @@ theorem move_inv {R C I0 J0 : Nat} {st : TB} (h : Inv R C I0 J0 st) (hi0 : 0 < s
     · simpa [endOf] using endp
 
 /-- the loop keeps the invariant and stops inside the table -/
-theorem loop_inv (sw : Bool) (T : Table) (S : Matrix) (o : Int) (r q : List Nat) (R C I0 J0 : Nat) :
+theorem loop_inv (aware sw : Bool) (T : Table) (S : Matrix) (o : Int) (r q : List Nat) (R C I0 J0 : Nat) :
     ∀ (fuel : Nat) (st st' : TB), Inv R C I0 J0 st →
-      tbLoop sw T S o r q R C fuel st = .ok st' → Inv R C I0 J0 st' := by
+      tbLoop aware sw T S o r q R C fuel st = .ok st' → Inv R C I0 J0 st' := by
   intro fuel
   induction fuel with
   | zero => intro st st' h hl; simp only [tbLoop] at hl; cases hl; exact h
@@ -169,7 +169,7 @@ theorem loop_inv (sw : Bool) (T : Table) (S : Matrix) (o : Int) (r q : List Nat)
       · rw [if_pos hsw] at hl; cases hl; exact h
       rw [if_neg hsw] at hl
       cases hf : (cands sw S o (r.getD (st.i - 1) 0) (q.getD (st.j - 1) 0)).find?
-          (fun cd => vadd ((predOf T st.i st.j cd.1).get cd.2.1) cd.2.2 == some v) with
+          (caseHit aware T st v) with
       | none => rw [hf] at hl; cases hl
       | some cd =>
         obtain ⟨mv, pl, add⟩ := cd
@@ -236,8 +236,8 @@ theorem move_ij (st : TB) (e : Bool) (mv pl : Kind) (v pv : Int) :
   · rw [move_keep st e mv pl v pv h]; exact ⟨rfl, rfl⟩
 
 /-- with enough fuel the NW/fitted loop stops only at the table's border -/
-theorem loop_stops (T : Table) (S : Matrix) (o : Int) (r q : List Nat) (R C : Nat) :
-    ∀ (fuel : Nat) (st st' : TB), tbLoop false T S o r q R C fuel st = .ok st' →
+theorem loop_stops (aware : Bool) (T : Table) (S : Matrix) (o : Int) (r q : List Nat) (R C : Nat) :
+    ∀ (fuel : Nat) (st st' : TB), tbLoop aware false T S o r q R C fuel st = .ok st' →
       st.i + st.j ≤ fuel → st'.i = 0 ∨ st'.j = 0 := by
   intro fuel
   induction fuel with
@@ -257,7 +257,7 @@ theorem loop_stops (T : Table) (S : Matrix) (o : Int) (r q : List Nat) (R C : Na
       have hsw : ¬ ((false : Bool) = true ∧ v = 0) := by simp
       rw [if_neg hsw] at hl
       cases hf' : (cands false S o (r.getD (st.i - 1) 0) (q.getD (st.j - 1) 0)).find?
-          (fun cd => vadd ((predOf T st.i st.j cd.1).get cd.2.1) cd.2.2 == some v) with
+          (caseHit aware T st v) with
       | none => rw [hf'] at hl; cases hl
       | some cd =>
         obtain ⟨mv, pl, add⟩ := cd
@@ -280,7 +280,7 @@ theorem nwAlign_wf (S : Matrix) (o : Int) (r q : List Nat) (ps : List Pair)
     wellFormed ps = true ∧ spansAll ps r.length q.length = true := by
   unfold nwAlign nwAlignT at h
   simp only [] at h
-  cases hl : tbLoop false (nwTable S o r q) S o r q r.length q.length (r.length + q.length)
+  cases hl : tbLoop true false (nwTable S o r q) S o r q r.length q.length (r.length + q.length)
       { i := r.length, j := q.length,
         layer := (if vgt ((nwTable S o r q).at r.length q.length).u ((nwTable S o r q).at r.length q.length).d
           then (if vgt ((nwTable S o r q).at r.length q.length).l ((nwTable S o r q).at r.length q.length).u then .l else .u)
@@ -290,9 +290,9 @@ theorem nwAlign_wf (S : Matrix) (o : Int) (r q : List Nat) (ps : List Pair)
   | ok st =>
     rw [hl] at h
     simp only [] at h
-    have hinv := loop_inv false _ S o r q r.length q.length r.length q.length _ _ st
+    have hinv := loop_inv true false _ S o r q r.length q.length r.length q.length _ _ st
       (init_inv r.length q.length r.length q.length _ (Nat.le_refl _) (Nat.le_refl _)) hl
-    have hstop := loop_stops _ S o r q r.length q.length _ _ st hl (Nat.le_refl _)
+    have hstop := loop_stops true _ S o r q r.length q.length _ _ st hl (Nat.le_refl _)
     obtain ⟨hwf, hend, hstart⟩ := emit_wf hinv
     have hne : st.emit.aln ≠ [] := by simp [TB.emit]
     by_cases hij : st.i ≠ st.j
@@ -357,7 +357,7 @@ theorem fitAlign_wf (S : Matrix) (o : Int) (r q : List Nat) (ps : List Pair)
   simp only [] at h
   have hE : fitEnd (fitTable S o r q) q.length r.length 1 (0, none) ≤ r.length :=
     fitEnd_le _ _ _ _ _ _ (Nat.zero_le _) (by omega)
-  cases hl : tbLoop false (fitTable S o r q) S o r q r.length q.length
+  cases hl : tbLoop true false (fitTable S o r q) S o r q r.length q.length
       (fitEnd (fitTable S o r q) q.length r.length 1 (0, none) + q.length)
       { i := fitEnd (fitTable S o r q) q.length r.length 1 (0, none), j := q.length, layer := .m,
         last := .m, score := 0, maxI := fitEnd (fitTable S o r q) q.length r.length 1 (0, none),
@@ -366,9 +366,9 @@ theorem fitAlign_wf (S : Matrix) (o : Int) (r q : List Nat) (ps : List Pair)
   | ok st =>
     rw [hl] at h
     simp only [] at h
-    have hinv := loop_inv false _ S o r q r.length q.length _ q.length _ _ st
+    have hinv := loop_inv true false _ S o r q r.length q.length _ q.length _ _ st
       (init_inv r.length q.length _ q.length _ hE (Nat.le_refl _)) hl
-    have hstop := loop_stops _ S o r q r.length q.length _ _ st hl (Nat.le_refl _)
+    have hstop := loop_stops true _ S o r q r.length q.length _ _ st hl (Nat.le_refl _)
     obtain ⟨hwf, hend, hstart⟩ := emit_wf hinv
     have hne : st.emit.aln ≠ [] := by simp [TB.emit]
     by_cases hj : st.j ≠ 0
@@ -462,7 +462,7 @@ theorem swAlign_wf (S : Matrix) (o : Int) (r q : List Nat) (ps : List Pair)
   unfold swAlign swAlignT at h
   simp only [] at h
   obtain ⟨hI, hJ⟩ := swBest_bound S o r q
-  cases hl : tbLoop true (swTable S o r q) S o r q r.length q.length
+  cases hl : tbLoop true true (swTable S o r q) S o r q r.length q.length
       ((swBest (swRows S o r q)).2.1 + (swBest (swRows S o r q)).2.2)
       { i := (swBest (swRows S o r q)).2.1, j := (swBest (swRows S o r q)).2.2, layer := .m,
         last := .m, score := 0, maxI := (swBest (swRows S o r q)).2.1,
@@ -472,7 +472,7 @@ theorem swAlign_wf (S : Matrix) (o : Int) (r q : List Nat) (ps : List Pair)
     rw [hl] at h
     simp only [Except.map] at h
     cases h
-    have hinv := loop_inv true _ S o r q r.length q.length _ _ _ _ st
+    have hinv := loop_inv true true _ S o r q r.length q.length _ _ _ _ st
       (init_inv r.length q.length _ _ _ hI hJ) hl
     obtain ⟨hwf, hend, _⟩ := emit_wf hinv
     refine ⟨hwf, ?_⟩
